@@ -89,11 +89,14 @@ class Check(CheckBase):
         # end to end with the real predicate on symbolic vertices (small lists): independent of how supersample is organised
         for m in ((3,) if tier == "quick" else (3, 4)):
             cs.append({"label": "E2E/len%d" % m, "kind": "E2E", "m": m, "split_depth": 5})
+        # ... and with the predicate summarised by its contract L1 (longer lists stay affordable)
+        for m in ((4,) if tier == "quick" else (4, 5)):
+            cs.append({"label": "E2C/len%d" % m, "kind": "E2C", "m": m, "split_depth": 5})
         return cs
 
     def config(self, tier, case):
-        if case["kind"].startswith("L1") or case["kind"] == "E2E":
-            return engine.Config(logic="QF_NRA", fresh_feas=True, max_decisions=300, ob_rlimit=300_000_000)
+        if case["kind"].startswith("L1") or case["kind"] in ("E2E", "E2C"):
+            return engine.Config(logic="QF_NRA", fresh_feas=True, max_decisions=300, ob_rlimit=300_000_000, falsify_samples=40)
         return engine.Config(max_decisions=400)
 
     def expected_reach(self, tier):
@@ -109,6 +112,8 @@ class Check(CheckBase):
             run.assume(tol > 0)
             orig = list(pts)
             res = pu.points_in_tolerance(pts, tol)
+            if isinstance(res, SymBool):
+                res = bool(res)          # a comparison returned unevaluated: decide it on this path (fork)
             assert isinstance(res, bool)
             a, b = [c.t for c in pts[0]], [c.t for c in pts[-1]]
             closes = [close_term([c.t for c in p], a, b, tol.t) for p in pts[1:-1]]
@@ -126,9 +131,21 @@ class Check(CheckBase):
             run.reach("L1ref")
             run.prove("L1:agrees-with-max_dist_from_n_points", z3.BoolVal(res) == (zreal(md) < tol.t))
             return
-        if kind == "E2E":
+        if kind in ("E2E", "E2C"):
             m = case["m"]
-            pu = load()
+            if kind == "E2C":
+                # assume-guarantee: the predicate is replaced by its contract (lemma L1, proved above for every
+                # slice length used here): its answer is exactly 'every interior point is within tolerance of
+                # the chord'.  Everything else supersample does runs for real on the symbolic coordinates.
+                def contract(points, tolerance):
+                    if len(points) < 3:
+                        raise AssertionError("There must be points (other than begin/end) to check.")
+                    a, b = [zreal(c) for c in points[0]], [zreal(c) for c in points[-1]]
+                    t = zreal(tolerance)
+                    return run.branch(z3.And([close_term([zreal(c) for c in q], a, b, t) for q in points[1:-1]]))
+                pu = load(contract)
+            else:
+                pu = load()
             vs = [(run.real("x%d" % i), run.real("y%d" % i)) for i in range(m)]
             tol = run.real("tol")
             orig = list(vs)
@@ -233,7 +250,7 @@ class Check(CheckBase):
             if abs(md * md - float(md2)) > 1e-9 * max(1.0, float(md2)):
                 return {"points": [[str(c) for c in p] for p in before], "max_dist_from_n_points": md, "exact_distance2": str(md2)}
             return None
-        if label.startswith("E2E"):
+        if label.startswith("E2E") or label.startswith("E2C"):
             m = int(label.split("len")[1])
             pts = [(Fraction(i["x%d" % k]), Fraction(i["y%d" % k])) for k in range(m)]
             tol = Fraction(i["tol"])
